@@ -366,7 +366,16 @@ impl<Foo> DataReaderAsync<Foo> {
     pub async fn get_requested_deadline_missed_status(
         &self,
     ) -> DdsResult<RequestedDeadlineMissedStatus> {
-        todo!()
+        let (reply_sender, reply_receiver) = oneshot();
+        self.dcps_sender()
+            .send(DcpsMail::Reader(ReaderServiceMail::GetRequestedDeadlineMissedStatus {
+                participant_handle: self.subscriber.get_participant().get_instance_handle(),
+                subscriber_handle: self.subscriber.get_instance_handle(),
+                data_reader_handle: self.handle,
+                reply_sender,
+            }))
+            .await;
+        reply_receiver.await?
     }
 
     /// Async version of [`get_requested_incompatible_qos_status`](crate::subscription::data_reader::DataReader::get_requested_incompatible_qos_status).
@@ -374,7 +383,16 @@ impl<Foo> DataReaderAsync<Foo> {
     pub async fn get_requested_incompatible_qos_status(
         &self,
     ) -> DdsResult<RequestedIncompatibleQosStatus> {
-        todo!()
+        let (reply_sender, reply_receiver) = oneshot();
+        self.dcps_sender()
+            .send(DcpsMail::Reader(ReaderServiceMail::GetRequestedIncompatibleQosStatus {
+                participant_handle: self.subscriber.get_participant().get_instance_handle(),
+                subscriber_handle: self.subscriber.get_instance_handle(),
+                data_reader_handle: self.handle,
+                reply_sender,
+            }))
+            .await;
+        reply_receiver.await?
     }
 
     /// Async version of [`get_sample_lost_status`](crate::subscription::data_reader::DataReader::get_sample_lost_status).
@@ -386,7 +404,16 @@ impl<Foo> DataReaderAsync<Foo> {
     /// Async version of [`get_sample_rejected_status`](crate::subscription::data_reader::DataReader::get_sample_rejected_status).
     #[tracing::instrument(skip(self))]
     pub async fn get_sample_rejected_status(&self) -> DdsResult<SampleRejectedStatus> {
-        todo!()
+        let (reply_sender, reply_receiver) = oneshot();
+        self.dcps_sender()
+            .send(DcpsMail::Reader(ReaderServiceMail::GetSampleRejectedStatus {
+                participant_handle: self.subscriber.get_participant().get_instance_handle(),
+                subscriber_handle: self.subscriber.get_instance_handle(),
+                data_reader_handle: self.handle,
+                reply_sender,
+            }))
+            .await;
+        reply_receiver.await?
     }
 
     /// Async version of [`get_subscription_matched_status`](crate::subscription::data_reader::DataReader::get_subscription_matched_status).
